@@ -96,6 +96,19 @@ def work(args):
                     return (Q == P, indep, inplane)
                 checks['parametric'] = impl.call(param)
                 checks['neg'] = impl.call(lambda: ((-P) == P, all(abs(x + y) < 1e-12 for x, y in zip(P.n, (-P).n)), impl.Pt(p) in (-P)))
+                mva = tuple(F(R.randint(-3, 3)) for _ in range(3))
+
+                def aliased():
+                    # planes derived from Q (its negation, the plane returned by Q.move) are moved in place after Q's forms were
+                    # read; wherever that leaves Q, its read-back forms must still describe ONE plane: Q itself
+                    Q = Plane(impl.Pt(p), impl.Vc(nrm))
+                    Q.general_form(), Q.point_normal(), Q.parametric(), hash(Q)
+                    (-Q).move(impl.Vc(mva))
+                    Q.move(impl.Vc(mva)).move(impl.Vc(tuple(-2 * c for c in mva)))
+                    g, pn = Q.general_form(), Q.point_normal()
+                    u, v, w = Q.parametric()
+                    return (Plane(*g) == Q, Plane(Point(pn[0]), pn[1]) == Q, Plane(Point(u), v, w) == Q, Point(pn[0]) in Q, Point(u) in Q)
+                checks['aliased'] = impl.call(aliased)
                 # three points
                 u, v = cross(nrm, V(1, 0, 0)), cross(nrm, V(0, 1, 0))
                 if is0(u):
@@ -187,7 +200,7 @@ def run(ctx, scale=1):
             key = 'Plane(Point(%s), Vector(%s))' % (gen.tv(p), gen.tv(nrm))
             ctx.count(key, nontrivial=(0 in nrm))
             ctx.dist['normal zero-pattern %s' % ''.join('0' if x == 0 else ('-' if x < 0 else '+') for x in nrm)] += 1
-            expect = dict(general_form=True, point_normal=True, parametric=(True, True, True), neg=(True, True, True), three_points=(True, True, True, True))
+            expect = dict(general_form=True, point_normal=True, parametric=(True, True, True), neg=(True, True, True), three_points=(True, True, True, True), aliased=(True,) * 5)
         else:
             p, d = r['line']
             key = 'Line(Point(%s), Vector(%s))' % (gen.tv(p), gen.tv(d))
